@@ -60,6 +60,7 @@ type result struct {
 	FilesLoaded  int
 	BytesPulled  int64
 	ContentBytes int64
+	DriveName    string
 }
 
 const (
@@ -76,7 +77,7 @@ func (cs Case) shape() string {
 	var parts []string
 	for _, e := range cs.Entries {
 		if e.Data != "" && (strings.HasSuffix(e.Name, "Chart.yaml") || strings.HasSuffix(e.Name, "templates/t.yaml")) && e.Route == "" {
-			if m := regexp.MustCompile(`name: "(.*)"`).FindStringSubmatch(e.Data); m != nil && m[1] != "x" {
+			if m := chartNameRe.FindStringSubmatch(e.Data); m != nil && m[1] != "x" {
 				parts = append(parts, "chartname="+nameShape(m[1]))
 			}
 			continue
@@ -104,6 +105,8 @@ func (cs Case) stream(outsideAbs string) ([]byte, []span) {
 	}
 	return gzipStored(raw, 512), spans
 }
+
+var chartNameRe = regexp.MustCompile(`name: "(.*)"`)
 
 var numRe = regexp.MustCompile(`[0-9]{4,}`)
 
@@ -199,6 +202,9 @@ func runLoad(cs Case) result {
 		walk(ch, 0)
 		res.FilesLoaded = len(names)
 		for _, n := range names {
+			if driveAbs(n) {
+				res.DriveName = n
+			}
 			if !cleanRelSlash(n) {
 				res.Viols = append(res.Viols, viol{
 					Key:  cs.EP + "/unclean-name/" + shape,
@@ -325,7 +331,7 @@ func sizeShape(cs Case, F, T int64) string {
 // runFS runs the case inside the box and applies the snapshot oracle.
 func runFS(b *fsbox, cs Case) result {
 	var res result
-	if err := b.reset(); err != nil {
+	if err := b.clean(); err != nil {
 		return result{Outcome: "harness-error:" + err.Error()}
 	}
 	gz, _ := cs.stream(b.Outside())
@@ -338,6 +344,7 @@ func runFS(b *fsbox, cs Case) result {
 	case "expandfile":
 		allowed = []string{"/box/dest"}
 		src := filepath.Join(b.Root, "src", "in.tgz")
+		b.dirty = true
 		os.MkdirAll(filepath.Dir(src), 0o755)
 		os.WriteFile(src, gz, 0o644)
 		call = func() error { return chartutil.ExpandFile(b.Dest(), src) }
@@ -354,6 +361,7 @@ func runFS(b *fsbox, cs Case) result {
 		call = func() error { return callPull(b, cs, gz) }
 	case "mgr":
 		allowed = []string{"/box/dest"}
+		b.dirty = true
 		if err := cs.Mgr.setup(b); err != nil {
 			return result{Outcome: "harness-error:" + err.Error()}
 		}
@@ -361,12 +369,18 @@ func runFS(b *fsbox, cs Case) result {
 	default:
 		return result{Outcome: "harness-error:unknown ep " + cs.EP}
 	}
-	if err := b.apply(layoutPlants(cs)); err != nil {
-		return result{Outcome: "harness-error:layout " + scrub(b, err.Error())}
-	}
-	before, err := snap(b.Root)
-	if err != nil {
-		return result{Outcome: "harness-error:snap " + scrub(b, err.Error())}
+	plants := layoutPlants(cs)
+	before := b.pristine
+	if len(plants) > 0 || b.dirty {
+		b.dirty = true
+		if err := b.apply(plants); err != nil {
+			return result{Outcome: "harness-error:layout " + scrub(b, err.Error())}
+		}
+		var err error
+		before, err = snap(b.Root)
+		if err != nil {
+			return result{Outcome: "harness-error:snap " + scrub(b, err.Error())}
+		}
 	}
 	cerr := safely(call)
 	after, err := snap(b.Root)
@@ -378,6 +392,9 @@ func runFS(b *fsbox, cs Case) result {
 		res.Err = scrub(b, cerr.Error())
 	}
 	chs := diffSnap(before, after)
+	if len(chs) > 0 {
+		b.dirty = true
+	}
 	res.WroteInside = len(chs) > 0
 	esc := escapes(chs, allowed)
 	if len(esc) > 0 {
